@@ -458,6 +458,8 @@ func baseName(obl string) string {
 	return obl
 }
 
+// the fixpoint iteration over loop write sets re-creates the context, so names stay stable
+
 func loadRegistry() map[string][]string {
 	out := map[string][]string{}
 	data, err := os.ReadFile(filepath.Join(verifRoot, "obligations.json"))
